@@ -217,6 +217,9 @@ def run(col, configs, tier):
         guarded(col, rule_mask_shift, facts)
         guarded(col, rule_flag_polarity, facts)
         guarded(col, rule_exponent_sign_paths, facts)
+        from rules import extra as X2
+        guarded(col, X2.rule_trim_needs_fraction_flag, facts)
+        guarded(col, X2.rule_mantissa_plus_paths, facts)
         from rules import extra as X
         guarded(col, X.rule_mixed_base_scaling, facts)
         from rules import c15
